@@ -3,6 +3,7 @@ CONSTANTS
   MaxH = 10
   Page = 3
   TSet = {2, 3, 4, 5, 6, 7, 8}
+  RSet = {}
   RUB = TRUE
   MTB = 1
   GCP = 1
